@@ -1017,7 +1017,7 @@ def _load_known():
     f = os.path.join(os.path.dirname(__file__), "known_fns.txt")
     try:
         with open(f) as fh:
-            return frozenset(l.strip() for l in fh if l.strip())
+            return frozenset(l.split("\t")[0].strip() for l in fh if l.strip())
     except OSError:
         return frozenset()
 
